@@ -38,7 +38,9 @@ BandViol(fs, b) ==
   \cup (IF StrictlyIncreasing(OwnEntries(fs, b)) THEN {} ELSE {<<"entries-not-strictly-increasing", b, -1>>})
   \cup (IF fs.bands[b].head = "garbage" THEN {<<"head-undecodable", b, -1>>} ELSE {})
   \cup (IF fs.bands[b].tail = "garbage" THEN {<<"tail-undecodable", b, -1>>} ELSE {})
-  \cup (IF fs.bands[b].tail = "ok" /\ fs.bands[b].tc # k
+  \* (a tail without a count, tc = -1, is what releases before 0.6.4 wrote: legal to find, see
+  \* TailsCounted for what may be written)
+  \cup (IF fs.bands[b].tail = "ok" /\ fs.bands[b].tc # -1 /\ fs.bands[b].tc # k
         THEN {<<"tail-hunk-count-wrong", b, fs.bands[b].tc>>} ELSE {})
   \cup (IF fs.bands[b].tail = "ok" /\ fs.bands[b].head # "ok" THEN {<<"tail-without-head", b, -1>>} ELSE {})
   \* the head is written before any hunk
@@ -65,4 +67,7 @@ FormatViol(fs) ==
   \cup (IF fs.extra = {} THEN {} ELSE {<<"unexpected-file", -1, -1>>})
 
 FormatOK(fs) == FormatViol(fs) = {}
+
+\* every tail states how many hunks its version has (required of what is written now)
+TailsCounted(fs) == \A b \in Bands(fs) : fs.bands[b].tail = "ok" => fs.bands[b].tc # -1
 =============================================================================
